@@ -17,6 +17,7 @@ import (
 )
 
 type Ctx struct {
+	NoReach   bool // do not emit reachability guards after calls
 	Reg       *Registry
 	Fset      *token.FileSet
 	Prog      *ssa.Program
@@ -90,6 +91,7 @@ type funcRun struct {
 	params   map[string]Value
 	goroutine string
 	oblCount  int
+	reachSeen map[string]int
 	lets      map[string]specVal
 	notes     []string
 	externUsed  map[string]bool
